@@ -80,6 +80,45 @@ Proof.
     apply IH. intros Hin. apply H. right; exact Hin.
 Qed.
 
+Lemma pget_pset_same k v p : pget k (pset k v p) = Some v.
+Proof.
+  unfold pget. induction p as [|[k' x] r IH]; cbn [pset assoc]; [rewrite str_eqb_refl; reflexivity|].
+  destruct (str_eqb_spec k k') as [->|Hne]; cbn [assoc]; [rewrite str_eqb_refl; reflexivity|].
+  destruct (str_eqb_spec k k'); [contradiction|exact IH].
+Qed.
+
+Lemma pget_pset_other k k' v p : k' <> k -> pget k' (pset k v p) = pget k' p.
+Proof.
+  unfold pget. intros Hne. induction p as [|[k0 x] r IH]; cbn [pset assoc].
+  - destruct (str_eqb_spec k' k); [contradiction|reflexivity].
+  - destruct (str_eqb_spec k k0) as [->|Hn0]; cbn [assoc].
+    + destruct (str_eqb_spec k' k0); [contradiction|reflexivity].
+    + rewrite IH. reflexivity.
+Qed.
+
+Lemma pget_split k v (p : params) : pget k p = Some v -> exists p1 p2, p = p1 ++ (k, v) :: p2 /\ ~ In k (map fst p1).
+Proof.
+  unfold pget. induction p as [|[k' x] r IH]; cbn [assoc]; [discriminate|].
+  destruct (str_eqb_spec k k') as [->|Hne]; intros H.
+  - inversion H; subst. exists [], r. split; [reflexivity|intros []].
+  - destruct (IH H) as [p1 [p2 [-> Hn]]]. exists ((k', x) :: p1), p2. split; [reflexivity|].
+    cbn [map fst]. intros [E|Hi]; [apply Hne; symmetry; exact E|exact (Hn Hi)].
+Qed.
+
+Lemma pget_none_inv k (p : params) : pget k p = None -> ~ In k (map fst p).
+Proof. intros H Hi. apply assoc_some_in in Hi as [v Hv]. unfold pget in H. congruence. Qed.
+
+Lemma pset_keys k v p : NoDup (map fst p) -> NoDup (map fst (pset k v p)).
+Proof.
+  intros Hn. destruct (pget k p) as [v0|] eqn:E.
+  - destruct (pget_split k v0 p E) as [p1 [p2 [-> Hk]]]. rewrite (pset_replace k v p1 v0 p2 Hk).
+    rewrite map_app in *. cbn [map fst] in *. exact Hn.
+  - pose proof (pget_none_inv k p E) as Hk. rewrite (pset_fresh k v p Hk). rewrite map_app. cbn [map fst].
+    apply NoDup_app_intro; [exact Hn|constructor; [intros []|constructor]|].
+    intros x Hx [<-|[]]. exact (Hk Hx).
+Qed.
+
+
 Lemma evaluate_app a b : evaluate (a ++ b) = evaluate a ++ evaluate b.
 Proof. apply map_app. Qed.
 
@@ -524,18 +563,6 @@ Section Main.
     Qed.
 
     (* ---------------------------------------------------------------- child objects -> params *)
-    Definition occ (var : xvar) (x : value) : list value :=
-      match x with
-      | VNone => []
-      | _ => match v_tokens_factory var with
-             | Some _ => match x with
-                         | VList _ [] => []
-                         | VList _ ((VList _ _ :: _) as l) => l
-                         | _ => [x]
-                         end
-             | None => match x with VList _ l => l | _ => [x] end
-             end
-      end.
     Definition tagged (var : xvar) (x : value) : objects := map (fun y => (Some (v_qname var), y)) (occ var x).
     Definition eentry (var : xvar) (x : value) : params :=
       match occ var x with
@@ -667,16 +694,17 @@ Section Main.
 
     (* all the child objects of one field *)
     Lemma bind_objects_var var x rest p wr wr' ws :
-      is_elem_var var -> ~ In (v_name var) (map fst p) ->
+      is_elem_var var -> (occ var x <> [] -> ~ In (v_name var) (map fst p)) ->
       (v_factory var = None -> (length (occ var x) <= 1)%nat) ->
       wr_for var (length (occ var x)) wr wr' ->
       bind_objects_loop c m (tagged var x ++ rest) p wr ws
       = bind_objects_loop c m rest (p ++ eentry var x) wr' ws.
     Proof.
-      intros Hv Hfr Hone Hwr. unfold tagged, eentry.
+      intros Hv Hfr0 Hone Hwr. unfold tagged, eentry.
       destruct (occ var x) as [|y l] eqn:Eo.
       - rewrite app_nil_r. cbn [map app length] in *. inversion Hwr; subst; reflexivity.
-      - destruct (v_factory var) as [f|] eqn:Ef.
+      - assert (Hfr : ~ In (v_name var) (map fst p)) by (apply Hfr0; discriminate). clear Hfr0.
+        destruct (v_factory var) as [f|] eqn:Ef.
         + cbn [map app length] in *.
           inversion Hwr as [wr0 Hnk|w a b Hw Hne Hnk]; subst.
           * rewrite (bind_object_list var f y _ _ _ wr' wr' None ws Hv Ef (wrappers_pop_none _ _ Hnk) I
@@ -776,11 +804,11 @@ Section Main.
       e_field (eobj n) var x = match x with VNone => [] | _ => e_wrap var (map (ienode var) (occ var x)) end.
     Proof. intros Hv. unfold RoundtripGen.e_field. rewrite (e_items_occ var x Hv). reflexivity. Qed.
 
-    Lemma e_field_cases var : is_elem_var var ->
-      (e_field (eobj n) var (F var) = [] /\ occ var (F var) = [])
-      \/ e_field (eobj n) var (F var) = e_wrap var (map (ienode var) (occ var (F var))).
+    Lemma e_field_cases var x : is_elem_var var ->
+      (e_field (eobj n) var x = [] /\ occ var x = [])
+      \/ e_field (eobj n) var x = e_wrap var (map (ienode var) (occ var x)).
     Proof.
-      intros Hv. rewrite (e_field_occ var (F var) Hv). destruct (F var); try (right; reflexivity). left. split; reflexivity.
+      intros Hv. rewrite (e_field_occ var x Hv). destruct x; try (right; reflexivity). left. split; reflexivity.
     Qed.
 
     Lemma wf_elem_default var : wf_elem var = true ->
@@ -817,15 +845,15 @@ Section Main.
     Lemma eqb_bool a b : Bool.eqb a b = true -> a = b.
     Proof. destruct a, b; try reflexivity; discriminate. Qed.
 
-    Lemma elem_field_facts var : is_elem_var var ->
-      Forall (item_ok var) (occ var (F var))
-      /\ (v_factory var = None -> (length (occ var (F var)) <= 1)%nat)
-      /\ (forall pv, eentry var (F var) = [(v_name var, pv)] -> pval_value pv = F var)
-      /\ (occ var (F var) = [] -> default_call (v_default var) = F var).
+    Lemma elem_value_facts var x : is_elem_var var -> fits_elem (fits n) var x = true ->
+      Forall (item_ok var) (occ var x)
+      /\ (v_factory var = None -> (length (occ var x) <= 1)%nat)
+      /\ (forall pv, eentry var x = [(v_name var, pv)] -> pval_value pv = x)
+      /\ (occ var x = [] -> default_call (v_default var) = x).
     Proof.
-      intros Hv. pose proof Hv as [Hw Hin]. pose proof (Hfe _ var Hin (or_introl eq_refl)) as Hf.
+      intros Hv Hf. pose proof Hv as [Hw Hin].
       pose proof (wf_elem_default var Hw) as Hd.
-      unfold Fits.fits_elem in Hf. unfold item_ok, eentry, occ. remember (F var) as x eqn:Ex0. clear Ex0.
+      unfold Fits.fits_elem in Hf. unfold item_ok, eentry, occ.
       assert (Hvt : v_types var = [vtype var]).
       { unfold vtype. destruct (v_types var) as [|t0 [|? ?]] eqn:Et; try reflexivity;
           unfold wf_elem, var_type in Hw; rewrite Et in Hw; rewrite !andb_false_r in Hw; discriminate. }
@@ -868,6 +896,15 @@ Section Main.
         + exfalso. unfold Fits.fits_item in Hf. destruct (vtype var); discriminate Hf.
         + exfalso. unfold Fits.fits_item in Hf. destruct (vtype var); discriminate Hf.
         + exfalso. unfold Fits.fits_item in Hf. destruct (vtype var); discriminate Hf.
+    Qed.
+
+    Lemma elem_field_facts var : is_elem_var var ->
+      Forall (item_ok var) (occ var (F var))
+      /\ (v_factory var = None -> (length (occ var (F var)) <= 1)%nat)
+      /\ (forall pv, eentry var (F var) = [(v_name var, pv)] -> pval_value pv = F var)
+      /\ (occ var (F var) = [] -> default_call (v_default var) = F var).
+    Proof.
+      intros Hv. apply (elem_value_facts var (F var) Hv). destruct Hv as [_ Hin]. apply (Hfe _ var Hin (or_introl eq_refl)).
     Qed.
 
     Lemma ienode_elem var y : is_elem_var var -> item_ok var y ->
@@ -1135,26 +1172,29 @@ Section Main.
       cbn [wr_after]. rewrite (wrappers_push_at _ w x a b Hn). rewrite (IHk _ a b Hn). rewrite <- app_assoc. reflexivity.
     Qed.
 
-    (* the entry the field leaves in the wrappers queue *)
-    Definition wentry (var : xvar) : list (qname * list qname) :=
-      match v_wrapper_qname var, occ var (F var) with
+    (* the entry one yielded pair (field, value) leaves in the wrappers queue *)
+    Definition wentry (var : xvar) (x : value) : list (qname * list qname) :=
+      match v_wrapper_qname var, occ var x with
       | Some w, (_ :: _) as l => [(v_qname var, repeat w (length l))]
       | _, _ => []
       end.
 
-    (* all the elements of one field *)
-    Definition asg_field (var : xvar) (asg : list N) : list N :=
-      match occ var (F var) with [] => asg | _ => asg_after var asg end.
+    (* all the elements of one yielded pair *)
+    Definition asg_field (var : xvar) (x : value) (asg : list N) : list N :=
+      match occ var x with [] => asg | _ => asg_after var asg end.
 
-    Lemma var_run var kes asg wr Q objs W rest :
-      is_elem_var var -> ~ In (v_index var) asg -> ~ In (v_qname var) (map fst wr) ->
-      reads_kids (e_field (eobj n) var (F var)) kes ->
+    Lemma var_run var x kes asg wr Q objs W rest :
+      is_elem_var var -> Forall (item_ok var) (occ var x) ->
+      (v_factory var = None -> (length (occ var x) <= 1)%nat) ->
+      (v_factory var = None -> ~ In (v_index var) asg) ->
+      (forall w, v_wrapper_qname var = Some w -> ~ In (v_qname var) (map fst wr)) ->
+      reads_kids (e_field (eobj n) var x) kes ->
       prun (mk_pstate (NElement (enW asg wr) :: Q) objs W) (kes ++ rest)
-      = prun (mk_pstate (NElement (enW (asg_field var asg) (wr ++ wentry var)) :: Q) (objs ++ tagged var (F var)) W) rest.
+      = prun (mk_pstate (NElement (enW (asg_field var x asg) (wr ++ wentry var x)) :: Q) (objs ++ tagged var x) W) rest.
     Proof.
-      intros Hv Hasg Hwq Hr.
-      destruct (elem_field_facts var Hv) as [Hall [Hone _]]. pose proof Hv as [Hwe _].
-      destruct (e_field_cases var Hv) as [[Ee Eo]|Ee]; rewrite Ee in Hr.
+      intros Hv Hall Hone Hasg Hwq Hr.
+      pose proof Hv as [Hwe _].
+      destruct (e_field_cases var x Hv) as [[Ee Eo]|Ee]; rewrite Ee in Hr.
       { cbn [reads_kids] in Hr. subst kes. unfold asg_field, tagged, wentry. rewrite Eo.
         destruct (v_wrapper_qname var); cbn [map app]; rewrite !app_nil_r; reflexivity. }
       unfold asg_field, tagged, wentry. unfold RoundtripGen.e_wrap in Hr.
@@ -1163,13 +1203,13 @@ Section Main.
         destruct (wf_elem_wrapper var w Hwe Ew) as [Hne [[f Hf] Htf]].
         assert (Hag : wrap_agrees var (Some w)) by (split; [exact Ew|exact Hne]).
         destruct (wrapper_known var w Hv Ew) as [xw Hxw].
-        assert (Hr' : reads_kids [EElem (Bind.split_qname w) [] (map (ienode var) (occ var (F var)))] kes).
+        assert (Hr' : reads_kids [EElem (Bind.split_qname w) [] (map (ienode var) (occ var x))] kes).
         { destruct w as [|ch w']; [congruence|exact Hr]. }
         clear Hr. rename Hr' into Hr.
         cbn [reads_kids] in Hr. destruct Hr as [a [b [-> [Ha ->]]]]. rewrite app_nil_r.
         cbn [reads] in Ha. destruct Ha as [attrs [ns [text [tail [kes [Hp [Hra [Htl Hk]]]]]]]].
         rewrite clark_split in Hp. subst a.
-        assert (Hkids : reads_kids (map (ienode var) (occ var (F var))) kes).
+        assert (Hkids : reads_kids (map (ienode var) (occ var x)) kes).
         { apply (reads_content_elems _ text kes); [|exact Hk].
           intros e He. apply in_map_iff in He as [y [<- Hy]].
           rewrite Forall_forall in Hall. apply (ienode_elem var y Hv (Hall y Hy)). }
@@ -1180,114 +1220,38 @@ Section Main.
         change (NWrapper w :: NElement (enW asg wr) :: Q) with (ctx (Some w) ++ NElement (enW asg wr) :: Q).
         rewrite (list_items_run var f _ kes asg wr (Some w) Q objs W _ Hv Hf Hall Hag Hkids).
         rewrite (run_step cfg c u replay root _ _
-                   (mk_pstate (NElement (enW asg (wr_pushes var (Some w) (length (occ var (F var))) wr)) :: Q)
-                              (objs ++ map (fun y => (Some (v_qname var), y)) (occ var (F var))) W) _).
+                   (mk_pstate (NElement (enW asg (wr_pushes var (Some w) (length (occ var x)) wr)) :: Q)
+                              (objs ++ map (fun y => (Some (v_qname var), y)) (occ var x)) W) _).
         2:{ reflexivity. }
         unfold asg_after. rewrite Hf.
-        destruct (occ var (F var)) as [|y0 l0] eqn:Eo; [cbn [length wr_pushes map]; rewrite !app_nil_r; reflexivity|].
-        cbn [length wr_pushes wr_after]. rewrite (wrappers_push_fresh _ w wr Hwq).
+        destruct (occ var x) as [|y0 l0] eqn:Eo; [cbn [length wr_pushes map]; rewrite !app_nil_r; reflexivity|].
+        cbn [length wr_pushes wr_after]. rewrite (wrappers_push_fresh _ w wr (Hwq w eq_refl)).
         change (wr ++ [(v_qname var, [w])]) with (wr ++ (v_qname var, [w]) :: []).
-        rewrite (wr_pushes_some var w (length l0) [w] wr [] Hwq). reflexivity.
+        rewrite (wr_pushes_some var w (length l0) [w] wr [] (Hwq w eq_refl)). reflexivity.
       - (* directly below the class element *)
         rewrite app_nil_r.
         destruct (v_factory var) as [f|] eqn:Ef.
         + change (NElement (enW asg wr) :: Q) with (ctx None ++ NElement (enW asg wr) :: Q).
           rewrite (list_items_run var f _ kes asg wr None Q objs W rest Hv Ef Hall I Hr).
           rewrite wr_pushes_none. unfold asg_after. rewrite Ef. cbn [ctx app].
-          destruct (occ var (F var)); reflexivity.
-        + specialize (Hone eq_refl). destruct (occ var (F var)) as [|y [|? ?]]; [| |cbn [length] in Hone; lia].
+          destruct (occ var x); reflexivity.
+        + specialize (Hone eq_refl). destruct (occ var x) as [|y [|? ?]]; [| |cbn [length] in Hone; lia].
           * cbn [map reads_kids] in Hr. subst kes. cbn [map]. rewrite !app_nil_r. reflexivity.
           * cbn [map reads_kids] in Hr. destruct Hr as [a [b [-> [Ha ->]]]]. rewrite !app_nil_r.
             inversion Hall as [|? ? Hy _]; subst.
-            apply (one_item_run var y a asg wr None Q objs W rest Hv Hy (fun _ => Hasg) I Ha).
+            apply (one_item_run var y a asg wr None Q objs W rest Hv Hy (fun _ => Hasg eq_refl) I Ha).
     Qed.
 
-    Lemma asg_field_in var asg i : In i (asg_field var asg) -> In i asg \/ i = v_index var.
+    Lemma asg_field_in var x asg i : In i (asg_field var x asg) -> In i asg \/ (i = v_index var /\ v_factory var = None).
     Proof.
-      unfold asg_field, asg_after. destruct (occ var (F var)); [left; assumption|].
-      destruct (v_factory var); [left; assumption|]. intros H. apply in_app_or in H as [H|[H|[]]]; [left; exact H|right; symmetry; exact H].
+      unfold asg_field, asg_after. destruct (occ var x); [left; assumption|].
+      destruct (v_factory var); [left; assumption|]. intros H. apply in_app_or in H as [H|[H|[]]]; [left; exact H|right; split; [symmetry; exact H|reflexivity]].
     Qed.
 
-    Lemma wentry_keys var k : In k (map fst (wentry var)) -> k = v_qname var.
+    Lemma wentry_keys var x k : In k (map fst (wentry var x)) -> k = v_qname var /\ v_wrapper_qname var <> None.
     Proof.
-      unfold wentry. destruct (v_wrapper_qname var); [|intros []]. destruct (occ var (F var)); [intros []|].
-      intros [H|[]]. symmetry. exact H.
-    Qed.
-
-    Lemma vars_run vars : forall kes asg wr Q objs W rest,
-      (forall var, In var vars -> is_elem_var var) -> NoDup (map v_index vars) -> NoDup (map v_qname vars) ->
-      (forall var, In var vars -> ~ In (v_index var) asg) ->
-      (forall var, In var vars -> ~ In (v_qname var) (map fst wr)) ->
-      reads_kids (flat_map (fun var => e_field (eobj n) var (F var)) vars) kes ->
-      exists asg', prun (mk_pstate (NElement (enW asg wr) :: Q) objs W) (kes ++ rest)
-                   = prun (mk_pstate (NElement (enW asg' (wr ++ flat_map wentry vars)) :: Q)
-                                     (objs ++ flat_map (fun var => tagged var (F var)) vars) W) rest.
-    Proof.
-      induction vars as [|var vars IHv]; intros kes asg wr Q objs W rest Hall Hnd Hnq Hasg Hwq Hr.
-      - cbn [flat_map reads_kids] in Hr. subst kes. exists asg. rewrite !app_nil_r. reflexivity.
-      - cbn [flat_map] in Hr. apply reads_kids_app in Hr as [k1 [k2 [-> [H1 H2]]]].
-        cbn [map] in Hnd, Hnq. inversion_clear Hnd as [|? ? Hni Hnd']. inversion_clear Hnq as [|? ? Hnqi Hnq'].
-        rewrite <- app_assoc.
-        rewrite (var_run var k1 asg wr Q objs W (k2 ++ rest) (Hall var (or_introl eq_refl)) (Hasg var (or_introl eq_refl))
-                   (Hwq var (or_introl eq_refl)) H1).
-        destruct (IHv k2 (asg_field var asg) (wr ++ wentry var) Q (objs ++ tagged var (F var)) W rest) as [asg' Hrun].
-        + intros v Hv. apply Hall. right; exact Hv.
-        + exact Hnd'.
-        + exact Hnq'.
-        + intros v Hv Hi. apply asg_field_in in Hi as [Hi|Hi].
-          * apply (Hasg v (or_intror Hv)). exact Hi.
-          * apply Hni. rewrite <- Hi. apply in_map. exact Hv.
-        + intros v Hv Hi. rewrite map_app in Hi. apply in_app_or in Hi as [Hi|Hi].
-          * apply (Hwq v (or_intror Hv)). exact Hi.
-          * apply wentry_keys in Hi. apply Hnqi. rewrite <- Hi. apply in_map. exact Hv.
-        + exact H2.
-        + exists asg'. rewrite Hrun. cbn [flat_map]. rewrite <- !app_assoc. reflexivity.
-    Qed.
-
-    Lemma bind_objects_vars vars : forall p a,
-      (forall var, In var vars -> is_elem_var var) -> NoDup (map v_name vars) -> NoDup (map v_qname vars) ->
-      (forall var, In var vars -> ~ In (v_name var) (map fst p)) ->
-      (forall var, In var vars -> ~ In (v_qname var) (map fst a)) ->
-      bind_objects_loop c m (flat_map (fun var => tagged var (F var)) vars) p (a ++ flat_map wentry vars) []
-      = ROk (p ++ flat_map (fun var => eentry var (F var)) vars, []).
-    Proof.
-      induction vars as [|var vars IHv]; intros p a Hall Hnd Hnq Hfr Hwq.
-      - cbn [flat_map bind_objects_loop]. rewrite app_nil_r. reflexivity.
-      - cbn [flat_map map] in *. inversion_clear Hnd as [|? ? Hni Hnd']. inversion_clear Hnq as [|? ? Hnqi Hnq'].
-        pose proof (Hall var (or_introl eq_refl)) as Hv.
-        destruct (elem_field_facts var Hv) as [_ [Hone _]].
-        assert (Hrestq : ~ In (v_qname var) (map fst (flat_map wentry vars))).
-        { intros Hi. apply in_map_iff in Hi as [[k x] [Ek Hi]]. cbn [fst] in Ek. subst k.
-          apply in_flat_map in Hi as [v [Hv' Hi]]. assert (Hk : In (v_qname var) (map fst (wentry v))) by (apply in_map_iff; eexists; split; [|exact Hi]; reflexivity).
-          apply wentry_keys in Hk. apply Hnqi. rewrite Hk. apply in_map. exact Hv'. }
-        assert (Hstep : exists a', wr_for var (length (occ var (F var))) (a ++ wentry var ++ flat_map wentry vars) (a' ++ flat_map wentry vars)
-                                   /\ forall v, In v vars -> ~ In (v_qname v) (map fst a')).
-        { unfold wentry at 1 2. destruct (v_wrapper_qname var) as [w|] eqn:Ew.
-          - destruct Hv as [Hwe _]. destruct (wf_elem_wrapper var w Hwe Ew) as [Hne _].
-            destruct (occ var (F var)) as [|y0 l0] eqn:Eo.
-            + exists a. cbn [app length]. split; [|intros v Hv'; apply Hwq; right; exact Hv'].
-              apply wr_plain.
-              rewrite map_app. intros Hi. apply in_app_or in Hi as [Hi|Hi]; [apply (Hwq var (or_introl eq_refl)); exact Hi|exact (Hrestq Hi)].
-            + exists (a ++ [(v_qname var, [])]). cbn [app]. rewrite <- app_assoc. cbn [app]. split.
-              * apply wr_wrapped; [exact Ew|exact Hne|apply (Hwq var (or_introl eq_refl))].
-              * intros v Hv' Hi. rewrite map_app in Hi. apply in_app_or in Hi as [Hi|[Hi|[]]].
-                -- apply (Hwq v (or_intror Hv')). exact Hi.
-                -- cbn [fst] in Hi. apply Hnqi. rewrite Hi. apply in_map. exact Hv'.
-          - exists a. cbn [app]. split; [|intros v Hv'; apply Hwq; right; exact Hv'].
-            apply wr_plain.
-            rewrite map_app. intros Hi. apply in_app_or in Hi as [Hi|Hi]; [apply (Hwq var (or_introl eq_refl)); exact Hi|exact (Hrestq Hi)]. }
-        destruct Hstep as [a' [Hwrf Ha']].
-        rewrite (bind_objects_var var (F var) _ p _ _ [] Hv (Hfr var (or_introl eq_refl)) Hone Hwrf).
-        rewrite IHv.
-        + rewrite <- app_assoc. reflexivity.
-        + intros v Hv'. apply Hall. right; exact Hv'.
-        + exact Hnd'.
-        + exact Hnq'.
-        + intros v Hv' Hi. rewrite map_app in Hi. apply in_app_or in Hi as [Hi|Hi].
-          * apply (Hfr v (or_intror Hv')). exact Hi.
-          * unfold eentry in Hi. destruct (occ var (F var)); [destruct Hi|]. destruct Hi as [Hi|[]]. cbn [fst] in Hi.
-            apply Hni. rewrite Hi. apply in_map. exact Hv'.
-        + exact Ha'.
+      unfold wentry. destruct (v_wrapper_qname var); [|intros []]. destruct (occ var x); [intros []|].
+      intros [H|[]]. split; [symmetry; exact H|discriminate].
     Qed.
 
     (* ---------------------------------------------------------------- the end of the element *)
@@ -1355,57 +1319,310 @@ Section Main.
       apply str_eqb_eq in Hq2. rewrite <- Ev, Hq2. apply in_map_iff. exists (k', [v']). split; [reflexivity|exact He].
     Qed.
 
+    (* ---------------------------------------------------------------- the yielded pairs, in the order of next_value *)
+    Let ps := pairs cl fs m.
+
+    Lemma pairs_ok : pairs_spec cl fs m ps.
+    Proof. apply (class_pairs cl fs m Hwc Hnames). Qed.
+
+    Lemma evar_elem : m_text m = None -> forall var, In var evars -> is_elem_var var.
+    Proof. intros Htx var Hv. destruct (wf_class_evar m var Hwc Hv) as [[Hw Hi]|[Ht _]]; [split; assumption|congruence]. Qed.
+
+    Lemma evar_same a b : In a evars -> In b evars -> v_index a = v_index b -> a = b.
+    Proof. destruct evars_names_nodup as [_ Hni]. apply (nodup_map_inj v_index evars a b Hni). Qed.
+
+    Lemma evar_qname_inj a b : m_text m = None -> In a evars -> In b evars -> v_qname a = v_qname b -> a = b.
+    Proof. intros Htx. apply (nodup_map_inj v_qname evars a b (evars_qnames_nodup Htx)). Qed.
+
+    Lemma evar_name_neq a b : In a evars -> In b evars -> v_index a <> v_index b -> v_name a <> v_name b.
+    Proof. intros Ha Hb Hne E. apply Hne. f_equal. apply (names_inj a b (evar_all a Ha) (evar_all b Hb) E). Qed.
+
+    Definition pair_ok (vv : xvar * value) : Prop :=
+      is_elem_var (fst vv) /\ Forall (item_ok (fst vv)) (occ (fst vv) (snd vv))
+      /\ (v_factory (fst vv) = None -> (length (occ (fst vv) (snd vv)) <= 1)%nat).
+
+    Lemma pair_facts vv : m_text m = None -> In vv ps -> In (fst vv) evars /\ pair_ok vv.
+    Proof.
+      intros Htx Hin. destruct (ps_src _ _ _ _ pairs_ok vv Hin) as [Hvar [Hxn Hsrc]].
+      destruct vv as [var x]. cbn [fst snd] in *. split; [exact Hvar|].
+      pose proof (evar_elem Htx var Hvar) as Hv. unfold pair_ok. cbn [fst snd].
+      destruct Hsrc as [Hw|[f [t [l [Hf [Htf [Hwn [El Hil]]]]]]]]; cbn [fst snd] in *.
+      - unfold pair_whole in Hw. cbn [fst snd] in Hw. rewrite Hw.
+        destruct (elem_field_facts var Hv) as [H1 [H2 _]]. split; [exact Hv|split; assumption].
+      - pose proof Hv as [Hwe Hine]. pose proof (Hfe _ var Hine (or_introl eq_refl)) as Hfv.
+        unfold F in Hfv. rewrite El in Hfv. unfold Fits.fits_elem in Hfv. rewrite Hf, Htf in Hfv.
+        apply andb_true_iff in Hfv as [_ Hfl]. rewrite forallb_forall in Hfl. specialize (Hfl x Hil).
+        assert (Ho : occ var x = [x]).
+        { unfold occ. rewrite Htf.
+          destruct (wf_elem_inv var Hwe) as [_ [_ [[k [Hty _]]|[t0 [Hty [Hst _]]]]]].
+          - destruct (fits_item_class c u ok _ var k x Hty Hfl) as [cl' [fs' [-> _]]]. reflexivity.
+          - destruct (fits_item_simple c u ok _ var t0 x Hty Hst Hfl) as [p [-> _]]. reflexivity. }
+        rewrite Ho. split; [exact Hv|split].
+        + constructor; [|constructor]. unfold item_ok. rewrite Htf. exact Hfl.
+        + intros _. cbn. lia.
+    Qed.
+
+    Definition taggedp (vv : xvar * value) : objects := tagged (fst vv) (snd vv).
+    Definition wentryp (vv : xvar * value) : list (qname * list qname) := wentry (fst vv) (snd vv).
+    Definition idx (vv : xvar * value) : N := v_index (fst vv).
+    Definition oncep (vv : xvar * value) : bool := once_b (fst vv).
+
+    Lemma once_nofactory var : v_factory var = None -> once_b var = true.
+    Proof. intros H. unfold once_b. rewrite H. reflexivity. Qed.
+    Lemma once_wrapped var : v_wrapper_qname var <> None -> once_b var = true.
+    Proof. intros H. unfold once_b. destruct (v_wrapper_qname var); [apply orb_true_r|congruence]. Qed.
+
+    Lemma once_tail a l : NoDup (map idx (filter oncep (a :: l))) -> NoDup (map idx (filter oncep l)).
+    Proof. cbn [filter]. destruct (oncep a); [|auto]. cbn [map]. intros H. inversion H; assumption. Qed.
+
+    Lemma once_head_other var x l vv :
+      NoDup (map idx (filter oncep ((var, x) :: l))) -> once_b var = true -> In vv l -> oncep vv = true ->
+      idx vv <> v_index var.
+    Proof.
+      intros Hnd Ho Hvv Hov E. cbn [filter] in Hnd. unfold oncep at 1 in Hnd. cbn [fst] in Hnd. rewrite Ho in Hnd.
+      cbn [map] in Hnd. inversion Hnd as [|? ? Hni _]; subst. apply Hni. apply in_map_iff. exists vv.
+      split; [exact E|]. apply filter_In. split; assumption.
+    Qed.
+
+    (* events -> objects, pair by pair *)
+    Lemma pairs_run l : forall kes asg wr Q objs W rest,
+      m_text m = None ->
+      (forall vv, In vv l -> In (fst vv) evars /\ pair_ok vv) ->
+      NoDup (map idx (filter oncep l)) ->
+      (forall vv, In vv l -> oncep vv = true -> ~ In (idx vv) asg /\ ~ In (v_qname (fst vv)) (map fst wr)) ->
+      reads_kids (flat_map (fun vv => e_field (eobj n) (fst vv) (snd vv)) l) kes ->
+      exists asg', prun (mk_pstate (NElement (enW asg wr) :: Q) objs W) (kes ++ rest)
+                   = prun (mk_pstate (NElement (enW asg' (wr ++ flat_map wentryp l)) :: Q) (objs ++ flat_map taggedp l) W) rest.
+    Proof.
+      induction l as [|[var x] l IHl]; intros kes asg wr Q objs W rest Htx Hall Hnd Hfr Hr.
+      - cbn [flat_map reads_kids] in Hr. subst kes. exists asg. rewrite !app_nil_r. reflexivity.
+      - cbn [flat_map fst snd] in Hr. apply reads_kids_app in Hr as [k1 [k2 [-> [H1 H2]]]].
+        destruct (Hall (var, x) (or_introl eq_refl)) as [Hvar [Hv [Hio Hone]]]. cbn [fst snd] in *.
+        rewrite <- app_assoc.
+        rewrite (var_run var x k1 asg wr Q objs W (k2 ++ rest) Hv Hio Hone).
+        2:{ intros Hf. apply (Hfr (var, x) (or_introl eq_refl) (once_nofactory var Hf)). }
+        2:{ intros w Hw. apply (Hfr (var, x) (or_introl eq_refl)). apply once_wrapped. cbn [fst]. congruence. }
+        2:{ exact H1. }
+        destruct (IHl k2 (asg_field var x asg) (wr ++ wentry var x) Q (objs ++ tagged var x) W rest Htx) as [asg' Hrun].
+        + intros vv Hvv. apply Hall. right; exact Hvv.
+        + apply (once_tail _ _ Hnd).
+        + intros vv Hvv Ho. destruct (Hfr vv (or_intror Hvv) Ho) as [Ha Hq]. split.
+          * intros Hi. apply asg_field_in in Hi as [Hi|[Hi Hf]]; [exact (Ha Hi)|].
+            apply (once_head_other var x l vv Hnd (once_nofactory var Hf) Hvv Ho). exact Hi.
+          * intros Hi. rewrite map_app in Hi. apply in_app_or in Hi as [Hi|Hi]; [exact (Hq Hi)|].
+            apply wentry_keys in Hi as [Hk Hw].
+            destruct (Hall vv (or_intror Hvv)) as [Hve _].
+            pose proof (evar_qname_inj _ _ Htx Hve Hvar Hk) as E.
+            apply (once_head_other var x l vv Hnd (once_wrapped var Hw) Hvv Ho). unfold idx. rewrite E. reflexivity.
+        + exact H2.
+        + exists asg'. rewrite Hrun. cbn [flat_map].
+          change (taggedp (var, x)) with (tagged var x). change (wentryp (var, x)) with (wentry var x).
+          rewrite <- !app_assoc. reflexivity.
+    Qed.
+
+    (* objects -> params: the state of params after a prefix `acc` of the pairs *)
+    Definition pentry (var : xvar) (l : list value) : pval :=
+      match v_factory var with Some f => PPend l (Some f) | None => PV (hd VNone l) end.
+    Definition pv_of (var : xvar) (l : list value) : option pval :=
+      match l with [] => None | _ => Some (pentry var l) end.
+    Definition Inv (pa p : params) (acc : list (xvar * value)) : Prop :=
+      NoDup (map fst p)
+      /\ (forall var, In var evars -> pget (v_name var) p = pv_of var (sel var acc))
+      /\ (forall k, (forall var, In var evars -> v_name var <> k) -> pget k p = pget k pa).
+
+    Lemma sel_snoc var' var x acc : In var evars -> In var' evars ->
+      sel var' (acc ++ [(var, x)]) = sel var' acc ++ (if N.eqb (v_index var) (v_index var') then occ var x else []).
+    Proof.
+      intros Hv Hv'. rewrite sel_app. f_equal. unfold sel. cbn [flat_map fst snd]. rewrite app_nil_r. unfold same_var.
+      destruct (N.eqb_spec (v_index var) (v_index var')) as [E|_]; [|reflexivity].
+      rewrite (evar_same var var' Hv Hv' E). reflexivity.
+    Qed.
+
+    Lemma inv_skip pa p acc var x : In var evars -> occ var x = [] -> Inv pa p acc -> Inv pa p (acc ++ [(var, x)]).
+    Proof.
+      intros Hv Ho [I1 [I2 I3]]. split; [exact I1|]. split; [|exact I3].
+      intros var' Hv'. rewrite (sel_snoc var' var x acc Hv Hv'), Ho.
+      destruct (N.eqb _ _); rewrite app_nil_r; apply I2; exact Hv'.
+    Qed.
+
+    Lemma inv_step pa p acc var x : In var evars -> occ var x <> [] -> Inv pa p acc ->
+      Inv pa (pset (v_name var) (pentry var (sel var acc ++ occ var x)) p) (acc ++ [(var, x)]).
+    Proof.
+      intros Hv Ho [I1 [I2 I3]]. split; [apply pset_keys; exact I1|]. split.
+      - intros var' Hv'. rewrite (sel_snoc var' var x acc Hv Hv').
+        destruct (N.eqb_spec (v_index var) (v_index var')) as [E|Hne].
+        + rewrite <- (evar_same var var' Hv Hv' E). rewrite pget_pset_same.
+          unfold pv_of. destruct (sel var acc ++ occ var x) eqn:Es; [|reflexivity].
+          apply app_eq_nil in Es as [_ Es]. contradiction.
+        + rewrite app_nil_r. rewrite pget_pset_other; [apply I2; exact Hv'|].
+          apply (evar_name_neq var' var Hv' Hv). intros E. apply Hne. symmetry; exact E.
+      - intros k Hk. rewrite pget_pset_other; [apply I3; exact Hk|]. intros E. apply (Hk var Hv). symmetry; exact E.
+    Qed.
+
+    (* the keys of the wrappers queue are the element names of wrapped fields *)
+    Definition wkeys_ok (a : list (qname * list qname)) : Prop :=
+      forall k, In k (map fst a) -> exists v, In v evars /\ v_wrapper_qname v <> None /\ k = v_qname v.
+
+    Lemma bind_objects_pairs pa l : forall acc p a,
+      m_text m = None ->
+      (forall vv, In vv l -> In (fst vv) evars /\ pair_ok vv) ->
+      NoDup (map idx (filter oncep l)) ->
+      (forall vv, In vv l -> oncep vv = true -> sel (fst vv) acc = []) ->
+      wkeys_ok a ->
+      (forall vv, In vv l -> v_wrapper_qname (fst vv) <> None -> ~ In (v_qname (fst vv)) (map fst a)) ->
+      Inv pa p acc ->
+      exists p', bind_objects_loop c m (flat_map taggedp l) p (a ++ flat_map wentryp l) [] = ROk (p', [])
+                 /\ Inv pa p' (acc ++ l).
+    Proof.
+      induction l as [|[var x] l IHl]; intros acc p a Htx Hall Hnd Hsel Hka Hwa HI.
+      - exists p. cbn [flat_map bind_objects_loop]. rewrite !app_nil_r. split; [reflexivity|exact HI].
+      - destruct (Hall (var, x) (or_introl eq_refl)) as [Hvar [Hv [Hio Hone]]]. cbn [fst snd] in *.
+        cbn [flat_map]. change (taggedp (var, x)) with (tagged var x). change (wentryp (var, x)) with (wentry var x).
+        assert (Hrestk : forall k, In k (map fst (flat_map wentryp l)) ->
+                  exists vv, In vv l /\ k = v_qname (fst vv) /\ v_wrapper_qname (fst vv) <> None).
+        { intros k Hi. apply in_map_iff in Hi as [[k' y] [Ek Hi]]. cbn [fst] in Ek. subst k'.
+          apply in_flat_map in Hi as [vv [Hvv Hi]]. exists vv. split; [exact Hvv|].
+          apply (wentry_keys (fst vv) (snd vv) k). apply in_map_iff. exists (k, y). split; [reflexivity|exact Hi]. }
+        assert (Hsame : forall vv, In vv l -> oncep vv = true -> v_index var <> v_index (fst vv)).
+        { intros vv Hvv Ho E. destruct (Hall vv (or_intror Hvv)) as [Hve _].
+          assert (Hov : once_b var = true) by (rewrite (evar_same var (fst vv) Hvar Hve E); exact Ho).
+          apply (once_head_other var x l vv Hnd Hov Hvv Ho). symmetry. exact E. }
+        assert (Htail_sel : forall vv, In vv l -> oncep vv = true -> sel (fst vv) (acc ++ [(var, x)]) = []).
+        { intros vv Hvv Ho. destruct (Hall vv (or_intror Hvv)) as [Hve _].
+          rewrite (sel_snoc (fst vv) var x acc Hvar Hve). rewrite (Hsel vv (or_intror Hvv) Ho). cbn [app].
+          destruct (N.eqb_spec (v_index var) (v_index (fst vv))) as [E|_]; [|reflexivity].
+          exfalso. apply (Hsame vv Hvv Ho E). }
+        assert (K1 : ~ In (v_qname var) (map fst a)).
+        { destruct (v_wrapper_qname var) as [w|] eqn:Ew.
+          - apply (Hwa (var, x) (or_introl eq_refl)). cbn [fst]. congruence.
+          - intros Hi. destruct (Hka _ Hi) as [v [Hve [Hw Ek]]].
+            rewrite (evar_qname_inj var v Htx Hvar Hve Ek) in Ew. congruence. }
+        assert (K2 : ~ In (v_qname var) (map fst (flat_map wentryp l))).
+        { intros Hi. destruct (Hrestk _ Hi) as [vv [Hvv [Ek Hw]]]. destruct (Hall vv (or_intror Hvv)) as [Hve _].
+          pose proof (evar_qname_inj var (fst vv) Htx Hvar Hve Ek) as E.
+          apply (Hsame vv Hvv (once_wrapped _ Hw)). rewrite E. reflexivity. }
+        assert (Hwstep : exists a', wr_for var (length (occ var x)) (a ++ wentry var x ++ flat_map wentryp l) (a' ++ flat_map wentryp l)
+                          /\ wkeys_ok a'
+                          /\ (forall vv, In vv l -> v_wrapper_qname (fst vv) <> None -> ~ In (v_qname (fst vv)) (map fst a'))).
+        { assert (Hplain : wr_for var (length (occ var x)) (a ++ flat_map wentryp l) (a ++ flat_map wentryp l)).
+          { apply wr_plain. rewrite map_app. intros Hi. apply in_app_or in Hi as [Hi|Hi]; [exact (K1 Hi)|exact (K2 Hi)]. }
+          assert (Hkeep : forall vv, In vv l -> v_wrapper_qname (fst vv) <> None -> ~ In (v_qname (fst vv)) (map fst a)).
+          { intros vv Hvv. apply Hwa. right; exact Hvv. }
+          unfold wentry. destruct (v_wrapper_qname var) as [w|] eqn:Ew.
+          - destruct (occ var x) as [|y0 l0] eqn:Eo.
+            + exists a. cbn [app]. repeat split; assumption.
+            + destruct Hv as [Hwe _]. destruct (wf_elem_wrapper var w Hwe Ew) as [Hne _].
+              exists (a ++ [(v_qname var, [])]). cbn [app]. rewrite <- app_assoc. cbn [app]. split; [|split].
+              * apply wr_wrapped; [exact Ew|exact Hne|exact K1].
+              * intros k Hi. rewrite map_app in Hi. apply in_app_or in Hi as [Hi|[Hi|[]]]; [apply Hka; exact Hi|].
+                cbn [fst] in Hi. exists var. split; [exact Hvar|]. split; [congruence|symmetry; exact Hi].
+              * intros vv Hvv Hw Hi. rewrite map_app in Hi. apply in_app_or in Hi as [Hi|[Hi|[]]]; [exact (Hkeep vv Hvv Hw Hi)|].
+                cbn [fst] in Hi. destruct (Hall vv (or_intror Hvv)) as [Hve _].
+                pose proof (evar_qname_inj var (fst vv) Htx Hvar Hve Hi) as E.
+                apply (Hsame vv Hvv (once_wrapped _ Hw)). rewrite E. reflexivity.
+          - exists a. cbn [app]. repeat split; assumption. }
+        destruct Hwstep as [a' [Hwrf [Hka' Hwa']]].
+        assert (Hcase : exists pnew,
+                  bind_objects_loop c m (tagged var x ++ flat_map taggedp l) p (a ++ wentry var x ++ flat_map wentryp l) []
+                  = bind_objects_loop c m (flat_map taggedp l) pnew (a' ++ flat_map wentryp l) []
+                  /\ Inv pa pnew (acc ++ [(var, x)])).
+        { destruct HI as [I1 [I2 I3]]. pose proof (conj I1 (conj I2 I3)) as HI.
+          assert (Hocc : occ var x = [] \/ occ var x <> []) by (destruct (occ var x); [left; reflexivity|right; discriminate]).
+          destruct Hocc as [Eo|Hne].
+          - exists p. split; [|apply inv_skip; assumption].
+            rewrite (bind_objects_var var x (flat_map taggedp l) p _ (a' ++ flat_map wentryp l) [] Hv
+                       (fun H => False_ind _ (H Eo)) Hone Hwrf).
+            unfold eentry. rewrite Eo, app_nil_r. reflexivity.
+          - exists (pset (v_name var) (pentry var (sel var acc ++ occ var x)) p).
+            split; [|apply inv_step; assumption].
+            destruct (sel var acc) as [|c0 cur] eqn:Ecur.
+            + assert (Hfr : ~ In (v_name var) (map fst p)).
+              { apply pget_none_inv. rewrite (I2 var Hvar), Ecur. reflexivity. }
+              rewrite (bind_objects_var var x (flat_map taggedp l) p _ (a' ++ flat_map wentryp l) [] Hv
+                         (fun _ => Hfr) Hone Hwrf).
+              cbn [app]. rewrite (pset_fresh _ _ _ Hfr). unfold eentry, pentry.
+              destruct (occ var x); [contradiction|reflexivity].
+            + assert (Hno : once_b var = false).
+              { destruct (once_b var) eqn:Eob; [|reflexivity].
+                pose proof (Hsel (var, x) (or_introl eq_refl) Eob) as Hs. cbn [fst] in Hs. rewrite Ecur in Hs. discriminate Hs. }
+              unfold once_b in Hno. destruct (v_factory var) as [f|] eqn:Ef; [|discriminate Hno].
+              pose proof (I2 var Hvar) as Hg. rewrite Ecur in Hg. unfold pv_of, pentry in Hg. rewrite Ef in Hg.
+              destruct (pget_split _ _ p Hg) as [p1 [p2 [Ep Hk1]]].
+              unfold tagged. rewrite Ep.
+              rewrite (bind_objects_more var f (occ var x) (c0 :: cur) p1 p2 (flat_map taggedp l) _ (a' ++ flat_map wentryp l) []
+                         Hv Ef Hk1 Hwrf).
+              rewrite (pset_replace _ _ p1 _ p2 Hk1). unfold pentry. rewrite Ef. reflexivity. }
+        destruct Hcase as [pnew [Hstep HInew]].
+        destruct (IHl (acc ++ [(var, x)]) pnew a' Htx) as [p' [Hrun HI']]; try assumption.
+        + intros vv Hvv. apply Hall. right; exact Hvv.
+        + apply (once_tail _ _ Hnd).
+        + exists p'. rewrite Hstep. split; [exact Hrun|].
+          rewrite <- app_assoc in HI'. exact HI'.
+    Qed.
+
+    Lemma str_dec (a b : str) : {a = b} + {a <> b}.
+    Proof. destruct (str_eqb_spec a b); [left|right]; assumption. Qed.
+
     Lemma end_complex asg q text tail Q objs W :
       m_text m = None -> pos0 = length objs -> reads_attrs eats attrs0 -> blank_o tail = true ->
-      pstep (mk_pstate (NElement (enW asg (flat_map wentry evars)) :: Q) (objs ++ flat_map (fun var => tagged var (F var)) evars) W) (PEnd q text tail)
+      pstep (mk_pstate (NElement (enW asg (flat_map wentryp ps)) :: Q) (objs ++ flat_map taggedp ps) W) (PEnd q text tail)
       = ROk (mk_pstate Q (objs ++ [(Some q, VObj cl fs)]) W).
     Proof.
       intros Htx Hpos Hra Htl.
       destruct (wf_class_inv m Hwc) as [F1 F2 F3 F4 F5 F6 F7 F8 F9 F10 F11 F12 F13].
-      assert (Hev : forall var, In var evars -> is_elem_var var).
-      { intros var Hv. destruct (wf_class_evar m var Hwc Hv) as [[Hw Hi]|[Ht _]]; [split; assumption|congruence]. }
-      destruct (bind_attrs_ok (enW asg (flat_map wentry evars)) attrs0 eq_refl eq_refl Hra) as [pa [Hba [Hnd [Hin Habs]]]].
-      destruct evars_names_nodup as [Hnn Hni].
+      pose proof (evar_elem Htx) as Hev.
+      destruct (bind_attrs_ok (enW asg (flat_map wentryp ps)) attrs0 eq_refl eq_refl Hra) as [pa [Hba [Hnd [Hin Habs]]]].
+      assert (Hpa_e : forall var, In var evars -> ~ In (v_name var) (map fst pa)).
+      { intros var Hv Hi. apply in_map_iff in Hi as [[k pv] [Ek Hk]]. cbn [fst] in Ek. subst k.
+        destruct (Hin _ _ Hk) as [va [Hva [En _]]]. apply (avar_evar_disjoint va var Hva Hv). symmetry. exact En. }
+      destruct (bind_objects_pairs pa ps [] pa [] Htx) as [p' [Hrun [J1 [J2 J3]]]].
+      { intros vv Hvv. apply (pair_facts vv Htx Hvv). }
+      { exact (ps_once _ _ _ _ pairs_ok). }
+      { intros vv _ _. reflexivity. }
+      { intros k []. }
+      { intros vv _ _ []. }
+      { split; [exact Hnd|]. split; [|reflexivity].
+        intros var Hv. cbn [sel flat_map pv_of]. apply pget_none. apply (Hpa_e var Hv). }
+      cbn [app] in J2.
+      assert (Hsel : forall var, In var evars -> sel var ps = occ var (F var)).
+      { intros var Hv. apply (ps_sel _ _ _ _ pairs_ok var Hv). }
       cbn [Parser.step pend st_queue st_objects st_warn]. unfold element_bind.
-      change (xsi_nil_true (enW asg (flat_map wentry evars))) with false. cbn [negb orb].
+      change (xsi_nil_true (enW asg (flat_map wentryp ps))) with false. cbn [negb orb].
       rewrite Hba. cbn [rbind fst snd].
-      unfold bind_content. change (en_meta (enW asg (flat_map wentry evars))) with m. unfold find_any_wildcard. rewrite F2. cbn [hd_error].
-      change (en_position (enW asg (flat_map wentry evars))) with pos0. change (en_wrappers (enW asg (flat_map wentry evars))) with ([] ++ flat_map wentry evars).
+      unfold bind_content. change (en_meta (enW asg (flat_map wentryp ps))) with m. unfold find_any_wildcard. rewrite F2. cbn [hd_error].
+      change (en_position (enW asg (flat_map wentryp ps))) with pos0.
+      change (en_wrappers (enW asg (flat_map wentryp ps))) with ([] ++ flat_map wentryp ps).
       rewrite Hpos, skipn_app_len, firstn_app_len.
-      rewrite (bind_objects_vars evars pa [] Hev Hnn (evars_qnames_nodup Htx)).
-      3:{ intros var _ []. }
-      2:{ intros var Hv Hi. apply in_map_iff in Hi as [[k pv] [Ek Hk]]. cbn [fst] in Ek. subst k.
-          destruct (Hin _ _ Hk) as [va [Hva [En _]]]. apply (avar_evar_disjoint va var Hva Hv). symmetry. exact En. }
-      cbn [rbind fst snd]. unfold bind_text. change (en_meta (enW asg (flat_map wentry evars))) with m. rewrite Htx. cbn [rbind app].
-      rewrite (class_factory_ok (pa ++ flat_map (fun var => eentry var (F var)) evars)).
-      - cbn [rbind]. change (en_derived (enW asg (flat_map wentry evars))) with false. cbn iota.
+      rewrite Hrun.
+      cbn [rbind fst snd]. unfold bind_text. change (en_meta (enW asg (flat_map wentryp ps))) with m. rewrite Htx. cbn [rbind app].
+      rewrite (class_factory_ok p').
+      - cbn [rbind]. change (en_derived (enW asg (flat_map wentryp ps))) with false. cbn iota.
         unfold append_tail. rewrite (normalize_blank tail Htl).
         unfold finish_end. cbn [rbind fst snd st_warn]. rewrite app_nil_r. reflexivity.
-      - (* distinct keys *)
-        rewrite map_app. apply NoDup_app_intro.
-        + exact Hnd.
-        + apply (nodup_flat_opt v_name fst); [exact Hnn|]. intros var _. unfold eentry.
-          destruct (occ var (F var)); [left; reflexivity|right; eexists; split; reflexivity].
-        + intros k Hk1 Hk2. apply in_map_iff in Hk1 as [[k1 pv1] [E1 H1]]. cbn [fst] in E1. subst k1.
-          destruct (Hin _ _ H1) as [va [Hva [En _]]].
-          apply in_map_iff in Hk2 as [[k2 pv2] [E2 H2]]. cbn [fst] in E2. subst k2.
-          apply in_flat_map in H2 as [ve [Hve H2]]. unfold eentry in H2. destruct (occ ve (F ve)); [destruct H2|].
-          destruct H2 as [H2|[]]. inversion H2 as [[En2 _]]. apply (avar_evar_disjoint va ve Hva Hve). congruence.
+      - exact J1.
       - (* every entry is the field's value *)
-        intros k pv Hk. apply in_app_or in Hk as [Hk|Hk].
-        + destruct (Hin _ _ Hk) as [va [Hva [En Hpv]]]. exists va. split; [apply avar_all; exact Hva|]. split; [exact En|].
-          rewrite Hpv. reflexivity.
-        + apply in_flat_map in Hk as [ve [Hve Hk]]. exists ve. split; [apply evar_all; exact Hve|].
+        intros k pv Hk. pose proof (assoc_nodup k p' pv J1 Hk) as Hg.
+        destruct (in_dec str_dec k (map v_name evars)) as [Hi|Hni].
+        + apply in_map_iff in Hi as [ve [En Hve]]. subst k. exists ve. split; [apply evar_all; exact Hve|].
+          split; [reflexivity|].
+          pose proof (J2 ve Hve) as Hp. unfold pget in Hp. rewrite Hg, (Hsel ve Hve) in Hp.
           destruct (elem_field_facts ve (Hev ve Hve)) as [_ [_ [Hval _]]].
-          unfold eentry in *. destruct (occ ve (F ve)) eqn:Eo; [destruct Hk|]. destruct Hk as [Hk|[]].
-          inversion Hk as [[En Epv]]. split; [reflexivity|]. apply Hval. try rewrite <- Epv. reflexivity.
+          apply Hval. unfold eentry. unfold pv_of, pentry in Hp.
+          destruct (occ ve (F ve)) eqn:Eo; [discriminate Hp|]. inversion Hp. reflexivity.
+        + assert (Hg' : pget k pa = Some pv).
+          { rewrite <- (J3 k); [exact Hg|]. intros var Hv E. apply Hni. rewrite <- E. apply in_map. exact Hv. }
+          apply assoc_in in Hg'. destruct (Hin _ _ Hg') as [va [Hva [En Hpv]]]. exists va.
+          split; [apply avar_all; exact Hva|]. split; [exact En|]. rewrite Hpv. reflexivity.
       - (* absent fields take their default *)
-        intros var Hv Hnot. rewrite map_app in Hnot. destruct (allvars_split var Hv) as [Ha|He].
-        + apply (Habs var Ha). intros Hi. apply Hnot. apply in_or_app. left; exact Hi.
+        intros var Hv Hnot. destruct (allvars_split var Hv) as [Ha|He].
+        + apply (Habs var Ha). intros Hi. apply Hnot.
+          apply assoc_some_in in Hi as [pv Hpv].
+          assert (Hg : pget (v_name var) p' = Some pv).
+          { rewrite (J3 (v_name var)); [exact Hpv|]. intros ve Hve E. apply (avar_evar_disjoint var ve Ha Hve). symmetry. exact E. }
+          apply assoc_in in Hg. apply in_map_iff. exists (v_name var, pv). split; [reflexivity|exact Hg].
         + destruct (elem_field_facts var (Hev var He)) as [_ [_ [_ Hdef]]]. apply Hdef.
-          destruct (occ var (F var)) eqn:Eo; [reflexivity|]. exfalso. apply Hnot. apply in_or_app. right.
-          apply in_map_iff. eexists. split; [|apply in_flat_map; exists var; split; [exact He|unfold eentry; rewrite Eo; left; reflexivity]].
-          reflexivity.
+          pose proof (J2 var He) as Hp. rewrite (pget_none _ _ Hnot), (Hsel var He) in Hp.
+          unfold pv_of in Hp. destruct (occ var (F var)); [reflexivity|discriminate Hp].
       - (* init fields *)
         intros var Hv. destruct (allvars_split var Hv) as [Ha|He].
         + destruct (wf_class_avar m var Hwc Ha) as [Hw _]. destruct (wf_attr_inv var Hw) as [_ [Hc _]].
@@ -1583,7 +1800,13 @@ Section Main.
       destruct (wf_class_inv m Hwc) as [F1 F2 F3 F4 F5 F6 F7 F8 F9 F10 F11 F12 F13].
       rewrite Htx in F11. destruct F11 as [Hwt Hnoe].
       assert (Hevars : get_element_vars m = [tv]) by (rewrite (evars_eq m Hwc), Hnoe, Htx; reflexivity).
-      rewrite Hevars in Hk. cbn [flat_map] in Hk. rewrite app_nil_r in Hk.
+      assert (Hpairs : pairs cl fs m = emit1 fs tv).
+      { rewrite (pairs_plain cl fs m Hwc Hnames), Hevars; [cbn [flat_map]; apply app_nil_r|].
+        intros var Hv. rewrite Hevars in Hv. destruct Hv as [<-|[]].
+        destruct (wf_text_inv tv Hwt) as [_ [Hc _]]. destruct (var_common_inv tv Hc) as [_ [_ [_ [_ [_ [_ [_ [Hs _]]]]]]]]. exact Hs. }
+      assert (Hkf : flat_map (fun vv => e_field (eobj n) (fst vv) (snd vv)) (pairs cl fs m) = e_field (eobj n) tv (field_of fs tv)).
+      { rewrite Hpairs. unfold emit1. destruct (field_of fs tv); cbn [flat_map fst snd]; rewrite ?app_nil_r; reflexivity. }
+      rewrite Hkf in Hk.
       assert (Htext : text = text_of fs tv /\ kes = []).
       { destruct (wf_text_inv tv Hwt) as [Hkt _].
         destruct (text_field_shape fs tv Hwt Hft) as [[Ex _]|[t [Ht [Hs _]]]].
@@ -1593,23 +1816,23 @@ Section Main.
       apply run_step.
       apply (end_simple cl fs m Hwc Hmc Hnames Hfa attrs ns (length objs) tv [] [] (elem_name qn cl) tail Q objs W Htx Hft eq_refl Hra Htl).
     - (* complex content *)
-      assert (Hev : forall var, In var (get_element_vars m) -> is_elem_var m var).
-      { intros var Hv. destruct (wf_class_evar m var Hwc Hv) as [[Hw Hi]|[Ht _]]; [split; assumption|congruence]. }
-      assert (Hkids : reads_kids (flat_map (fun var => e_field (eobj n) var (field_of fs var)) (get_element_vars m)) kes).
+      assert (Hpf : forall vv, In vv (pairs cl fs m) -> In (fst vv) (get_element_vars m) /\ pair_ok m n vv).
+      { intros vv Hvv. apply (pair_facts cl fs m Hwc Hmc Hnames n Hfe vv Htx Hvv). }
+      assert (Hkids : reads_kids (flat_map (fun vv => e_field (eobj n) (fst vv) (snd vv)) (pairs cl fs m)) kes).
       { apply (reads_content_elems _ text kes); [|exact Hk].
-        intros e He. apply in_flat_map in He as [var [Hv He]].
-        rewrite (e_field_occ m n var _ (Hev var Hv)) in He.
-        assert (Hitems : In e (map (ienode n var) (occ var (field_of fs var))) -> exists q a k, e = EElem q a k).
+        intros e He. apply in_flat_map in He as [[var x] [Hvv He]]. cbn [fst snd] in He.
+        destruct (Hpf _ Hvv) as [Hvar [Hv [Hio _]]]. cbn [fst snd] in *.
+        rewrite (e_field_occ m n var x Hv) in He.
+        assert (Hitems : In e (map (ienode n var) (occ var x)) -> exists q a k, e = EElem q a k).
         { intros Hi. apply in_map_iff in Hi as [y [<- Hy]].
-          destruct (elem_field_facts cl fs m Hmc n Hfe var (Hev var Hv)) as [Hall _].
-          rewrite Forall_forall in Hall. apply (ienode_elem fs m n Hfe var y (Hev var Hv) (Hall y Hy)). }
-        destruct (field_of fs var); try destruct He;
+          rewrite Forall_forall in Hio. apply (ienode_elem fs m n Hfe var y Hv (Hio y Hy)). }
+        destruct x; try destruct He;
           (unfold RoundtripGen.e_wrap in He; destruct (v_wrapper_qname var) as [[|ch w]|];
            [apply Hitems; exact He|destruct He as [<-|[]]; eauto|apply Hitems; exact He]). }
-      destruct (evars_names_nodup m Hwc) as [_ Hni].
-      destruct (vars_run cl fs m Hwc Hmc n Hfe IH Hnest attrs ns (length objs) (get_element_vars m) kes [] [] Q objs W
-                  (PEnd (elem_name qn cl) text tail :: rest) Hev Hni (evars_qnames_nodup m Hwc Htx)
-                  (fun _ _ Hi => Hi) (fun _ _ Hi => Hi) Hkids) as [asg' Hrun].
+      destruct (pairs_run cl fs m Hwc Hmc n Hfe IH Hnest attrs ns (length objs) (pairs cl fs m) kes [] [] Q objs W
+                  (PEnd (elem_name qn cl) text tail :: rest) Htx Hpf
+                  (ps_once _ _ _ _ (class_pairs cl fs m Hwc Hnames))
+                  (fun _ _ _ => conj (fun Hi => Hi) (fun Hi => Hi)) Hkids) as [asg' Hrun].
       unfold enW in Hrun. rewrite Hrun. apply run_step. cbn [app].
       apply (end_complex cl fs m Hwc Hmc Hnames Hfa n Hfe attrs ns (length objs) asg' (elem_name qn cl) text tail Q objs W Htx eq_refl Hra Htl).
   Qed.
